@@ -27,6 +27,10 @@ Unchanged(ns) == \A n \in ns : (n \in ObsExists) = (n \in exists) /\ ObsContent[
 \* the solutions of the WHERE pattern over the FROM graphs (data elements tagged by source index)
 SrcData == UNION {{<<i, t>> : t \in content[e.sources[i]]} : i \in DOMAIN e.sources}
 Sols == SolutionsOver(SrcData, e, {})
+\* a source graph holds blank nodes (a reification was written into a graph that a later statement reads from): matching
+\* blank nodes in WHERE patterns is not specified here (they are outside the node table) - such statements are not judged
+SrcHasBlank == \E i \in DOMAIN e.sources : e.sources[i] \in DOMAIN content /\
+    \E t \in content[e.sources[i]] : IsBlank(t.s) \/ (t.o.k = "N" /\ IsBlank(t.o.v))
 
 Verdict ==
     IF ~NoDupListing THEN "duplicate-triple-in-listing"
@@ -54,6 +58,7 @@ Verdict ==
                       ELSE IF Unchanged(AllNames) THEN "ok" ELSE "rejected-statement-changed-store")
                 ELSE IF ~Unchanged(AllNames \ Targets) THEN "non-target-changed"
                 ELSE IF ObsExists # exists THEN "graph-set-changed"
+                ELSE IF SrcHasBlank THEN "open"
                 ELSE IF \E i \in DOMAIN e.tpls : InstFails(e.tpls[i], Sols)
                      THEN (IF e.err THEN "ok" ELSE "open")   \* a binding of the wrong kind for its position
                 ELSE IF e.err THEN "error-instead-of-effect"
